@@ -25,15 +25,35 @@ RULE = ("structured random cases: 2-6 forecast thresholds on the half-integer gr
         "threshold dimension at a random position, ordinates k/8 (mostly non-decreasing, sometimes shuffled, NaN injected), observations on / between / "
         "outside the forecast thresholds (or NaN), weight absent / 0-1 step / general k/4 on its own thresholds and dims, additional thresholds, "
         "4 fcst fills x 4 weight fills x 2 integration methods x propagate_nans x include_components, plus a malformed stream (non-increasing "
-        "coordinates, ordinates or weights outside [0,1], negative weights, unknown method names, a single threshold); a case is distinct by the hash "
+        "coordinates, ordinates or weights outside [0,1], negative weights, unknown method names, a single threshold); 30 % of the calls are moved to "
+        "base + scale * x (thresholds far from zero relative to their spacing: 1e6 at 1, 101325 at 1/16, 273 at 1/64, -2e6 at 2; a 2^-10 grid), "
+        "observations up to 2^20 outside the thresholds, 12 % of the calls have a NaN in EVERY forecast CDF (single-case calls included), 10 % use "
+        "integer threshold coordinates; deterministic probes for each of these classes; a case is distinct by the hash "
         "of all inputs and options and non-trivial when at least one forecast case has a finite score")
-ASSUMPTIONS = ["observations, thresholds and weights are finite or NaN (no infinities)",
+ASSUMPTIONS = ["thresholds (forecast, weight, additional) are finite; observations are finite or NaN -- an infinite observation is outside the model and is "
+               "only checked through the relation 'scored as a missing observation' (known finding crps-cdf-infinite-observation)",
                "threshold weights lie in [0,1]: fill_cdf rejects anything else with ValueError (modelled and checked)"]
 TRUSTED = ["hand model of xarray's interpolate_na(linear, extrapolate) / ffill / bfill / integrate / sum(min_count) in coq/model/Cdf.v (validated by correspondence)"]
+
+# counters every complete run must have incremented (core.run_check reports the ones that did not): one per predicate family / input class
+EXPECT_COUNTS = ["corpus", "probe_nondyadic_obs", "probe_far_thresholds", "probe_every_case_has_nan", "sweep_calls",
+                 "weight:none", "weight:step01", "weight:zero_one", "weight:general",
+                 "integration:exact", "integration:trapz", "fill:linear", "fill:step", "fill:forward", "fill:backward",
+                 "malformed:", "error_path", "pred:value_is_spec:exact", "pred:value_is_spec:trapz", "pred:under_over_total",
+                 "reduce:ok", "reduce:err", "partition", "brier", "brier:error_path", "trapz_is_trapezoid_of_brier",
+                 "nan_own_case:fcst", "nan_own_case:weight", "dims_error:",
+                 "class:obs_far_outside", "class:thresholds_far_from_zero", "class:every_case_has_nan", "class:single_case",
+                 "class:single_case_with_nan", "class:weight_nan_without_case_dim", "class:int_thresholds",
+                 "shift_scale_equivariance", "alone_vs_batch", "inf_obs_as_missing:crps", "inf_obs_as_missing:brier"]
 
 TD = "thr"
 FILLS = ["linear", "step", "forward", "backward"]
 NAN = float("nan")
+INF = float("inf")
+# (base, scale): thresholds, observations and additional thresholds x (half units near zero) become base + scale * x: thresholds far from
+# zero relative to their spacing (1e6 ... 1e6+4 at unit spacing, pressure-like 101325 at 1/16, Kelvin-like 273 at 1/64, -2e6 at spacing 2)
+# and a very fine grid near zero.  CRPS is equivariant: score(base + scale * case) = scale * score(case).
+AFFINE = [(1e6, 2.0), (1e6, 1.0), (float(2 ** 20), 1.0), (-2e6, 4.0), (101325.0, 0.125), (273.0, 0.03125), (-5000.0, 1.0), (0.0, 2.0 ** -10)]
 
 
 def S():
@@ -44,8 +64,10 @@ def S():
 # ------------------------------------------------------------------------------------------
 # generation
 # ------------------------------------------------------------------------------------------
-def gen_thresholds(rng, lo=2, hi=6, span=20):
+def gen_thresholds(rng, lo=2, hi=6, span=20, even=False):
     n = rng.randint(lo, hi)
+    if even:                                               # whole numbers only (stored as an integer coordinate)
+        return sorted(2 * k for k in rng.sample(range(0, span // 2 + 1), n))
     return sorted(rng.sample(range(0, span + 1), n))       # in half units
 
 
@@ -67,6 +89,9 @@ def gen_obs_value(rng, ths, nan_p=0.1):
         return NAN
     if r < nan_p + 0.1:
         return rng.randint(ths[0] - 1, ths[-1]) / 2.0 + rng.choice(OFFSETS)
+    if r < nan_p + 0.16:      # far outside the threshold grid (the integral runs over the span of all thresholds AND the observation)
+        k = 2 ** rng.randint(6, 21)
+        return rng.choice([ths[0] - k, ths[-1] + k]) / 2.0
     if r < 0.45:
         return rng.choice(ths) / 2.0                      # on a forecast threshold
     if r < 0.8:
@@ -135,16 +160,40 @@ def gen_weight(rng, sizes, ths, bad=False):
 
 def gen_case(ctx, malformed=False):
     rng = ctx.rng
-    ths = gen_thresholds(rng)
+    int_mode = rng.random() < 0.1                 # whole-number thresholds stored as an integer coordinate (and integer observations)
+    ths = gen_thresholds(rng, even=int_mode)
     names = ["a", "b", "c"]
     rng.shuffle(names)
     sizes = {d: rng.randint(1, 3) for d in names[:rng.choice([0, 1, 1, 2])]}
     nanp = rng.choice([0.0, 0.0, 0.1, 0.25])
     mono = rng.choice([1.0, 0.7, 0.0])
     nthr = len(ths)
-    fc = make_da(rng, sizes, TD, [t / 2.0 for t in ths], lambda: gen_line(rng, nthr, mono, nanp))
+    each_nan = rng.random() < 0.12                # EVERY forecast CDF of the call has a NaN ordinate (the whole array is NaN after propagation)
+
+    def fline():
+        ln = gen_line(rng, nthr, mono, nanp)
+        if each_nan and not any(np.isnan(v) for v in ln):
+            ln[rng.randrange(nthr)] = NAN
+        return ln
+    fc = make_da(rng, sizes, TD, [t // 2 for t in ths] if int_mode else [t / 2.0 for t in ths], fline)
     odims = {d: sizes[d] for d in sizes if rng.random() < 0.7}
     obs = make_da(rng, odims, None, None, lambda: gen_obs_value(rng, ths))
+    if int_mode:
+        ctx.count("class:int_thresholds")
+        ov = np.asarray(obs.values, dtype=float)
+        if not np.isnan(ov).any() and (ov == np.round(ov)).all():      # whole-number observations in integer storage (unsigned when none is negative)
+            obs = obs.astype(rng.choice([np.int64, np.int32] + ([np.uint8, np.uint16] if (ov >= 0).all() and (ov < 256).all() else [])))
+            ctx.count("class:int_observations")
+    ncases = int(np.prod([sizes[d] for d in sizes])) if sizes else 1
+    if not sizes:
+        ctx.count("class:single_case")
+    if each_nan:
+        ctx.count("class:every_case_has_nan")
+        if ncases == 1:
+            ctx.count("class:single_case_with_nan")
+    lo, hi = ths[0] / 2.0, ths[-1] / 2.0
+    if any(np.isfinite(v) and (v < lo - 16 or v > hi + 16) for v in np.asarray(obs.values, dtype=float).ravel()):
+        ctx.count("class:obs_far_outside")
     w, wkind = (None, "none")
     bad = None
     if malformed:
@@ -179,7 +228,27 @@ def gen_case(ctx, malformed=False):
         opt["integration_method"] = "simpson"
     elif bad == "one_threshold":
         fc = fc.isel({TD: slice(0, 1)})
-    return dict(fcst=fc, obs=obs, weight=w, add=add, opt=opt, sizes=sizes, wkind=wkind, bad=bad)
+    if w is not None and bad is None and set(w.dims) == {TD} and bool(np.isnan(w.values).any()):
+        ctx.count("class:weight_nan_without_case_dim")
+    c = dict(fcst=fc, obs=obs, weight=w, add=add, opt=opt, sizes=sizes, wkind=wkind, bad=bad)
+    if not int_mode and rng.random() < 0.3:
+        ctx.count("class:thresholds_far_from_zero")
+        return affine(c, *rng.choice(AFFINE))
+    return c
+
+
+def affine(c, base, scale):
+    """the same call with every threshold-like quantity x (forecast / weight threshold coordinates, observations, additional thresholds)
+    replaced by base + scale * x; the untransformed call is kept under 'plain' for the equivariance predicate"""
+    def T(x):
+        return base + scale * np.asarray(x, dtype=float)
+    fc = c["fcst"].assign_coords({TD: T(c["fcst"][TD].values)})
+    w = c["weight"]
+    if w is not None:
+        w = w.assign_coords({TD: T(w[TD].values)})
+    obs = c["obs"].copy(data=T(c["obs"].values))
+    add = None if c["add"] is None else [float(T(a)) for a in c["add"]]
+    return dict(c, fcst=fc, obs=obs, weight=w, add=add, affine=(base, scale), plain=c)
 
 
 # ------------------------------------------------------------------------------------------
@@ -267,7 +336,7 @@ def tie_crps(ctx, c, components=True):
             ctx.case(("crps", desc))
             for lb, g in zip(labs, impl_triples(impl[1], dims, labs)):
                 t, u, o = g
-                if not (np.isnan(t) and np.isnan(u) and np.isnan(o)) and not (abs(u + o - t) <= 1e-9 and u >= -1e-12 and o >= -1e-12):
+                if not (np.isnan(t) and np.isnan(u) and np.isnan(o)) and not (abs(u + o - t) <= 1e-9 * max(1.0, abs(t)) and u >= -1e-12 and o >= -1e-12):
                     ctx.violation("under + over != total or a negative component", {**desc, "case": dict(zip(dims, lb))}, "u+o=t, u>=0, o>=0", g)
                     break
         return None
@@ -289,6 +358,7 @@ def tie_crps(ctx, c, components=True):
     ctx.case(("crps", desc), nontrivial=finite)
     # (1a) value = proved specification value (integral / trapezoid sum on the documented grid and fills)
     if spec != "none":
+        ctx.count("pred:value_is_spec:" + c["opt"]["integration_method"])
         for lb, g, t in zip(labs, got, spec):
             q = core.dec_nums(t)
             if not triples_close(g, q):
@@ -298,10 +368,11 @@ def tie_crps(ctx, c, components=True):
                 break
     # (1b) under + over = total, both >= 0
     if components:
+        ctx.count("pred:under_over_total")
         for lb, g in zip(labs, got):
             t, u, o = g
             if not (np.isnan(t) and np.isnan(u) and np.isnan(o)):
-                if not (abs(u + o - t) <= 1e-9 and u >= -1e-12 and o >= -1e-12):
+                if not (abs(u + o - t) <= 1e-9 * max(1.0, abs(t)) and u >= -1e-12 and o >= -1e-12):
                     ctx.violation("under + over != total or a negative component", {**desc, "case": dict(zip(dims, lb))}, "u+o=t, u>=0, o>=0", g)
                     break
     # (2) tie
@@ -487,6 +558,7 @@ def brier_tie_and_trapz(ctx, c):
     elif core.is_err(m) or impl[0] == "err":
         ok = core.is_err(m) and impl[0] == "err" and impl[1] == m
         ctx.case(("brier", desc), nontrivial=ok)
+        ctx.count("brier:error_path" if ok else "brier:error_mismatch")
         if not ok:
             ctx.tie_fail("crps_cdf_brier_decomposition raises/returns differently from the model", desc, str(impl[1])[:200], str(m)[:200])
         return
@@ -548,7 +620,7 @@ def brier_tie_and_trapz(ctx, c):
     ctx.count("trapz_is_trapezoid_of_brier")
 
 
-def nan_own_case(ctx, c):
+def nan_own_case(ctx, c, target=None):
     """a NaN ordinate (forecast, or threshold weight) blanks its own forecast case and leaves every other case unchanged (propagate_nans=True)"""
     if c["bad"] or not c["sizes"]:
         return
@@ -560,9 +632,8 @@ def nan_own_case(ctx, c):
     base = call_crps(c1)
     lb = rng.choice(labs)
     sel = dict(zip(dims, lb))
-    target = "fcst"
     hit = [lb]
-    if c["weight"] is not None and rng.random() < 0.4:
+    if c["weight"] is not None and (target == "weight" or (target is None and rng.random() < 0.4)):
         target = "weight"
         w2 = c["weight"].copy()
         wsel = {d: v for d, v in sel.items() if d in w2.dims}
@@ -571,6 +642,7 @@ def nan_own_case(ctx, c):
         pert = call_crps(dict(c1, weight=w2))
         hit = [l for l in labs if all(dict(zip(dims, l))[d] == v for d, v in wsel.items())]
     else:
+        target = "fcst"
         f2 = c["fcst"].copy()
         j = rng.randrange(f2.sizes[TD])
         f2.loc[{**sel, TD: f2[TD].values[j]}] = NAN
@@ -594,6 +666,174 @@ def nan_own_case(ctx, c):
                 ctx.violation(f"a NaN {target} ordinate changes another forecast case / does not blank its own case",
                               {**describe(c1), "nan_in": target, "nan_at": {**sel, "threshold_index": j}, "looked_at": s2, "component": n}, "nan" if l2 in hit else a, b)
                 return
+
+
+def same_or_both_nan(a, b, tol=1e-12):
+    return (np.isnan(a) and np.isnan(b)) or (not np.isnan(a) and not np.isnan(b) and (a == b or abs(a - b) <= tol * max(1.0, abs(a))))
+
+
+def shift_scale(ctx, c):
+    """CRPS is equivariant under x -> base + scale * x applied to every threshold and observation: the score of the moved call is
+    scale * the score of the call near zero (the integrand only sees differences of thresholds).  Needs no model."""
+    p = c.get("plain")
+    if p is None or c["bad"]:
+        return
+    base, scale = c["affine"]
+    a, b = call_crps(p), call_crps(c)
+    desc = {**describe(c), "moved_by": {"base": base, "scale": scale}}
+    if a[0] != "ok" or b[0] != "ok":
+        if a[0] != b[0]:
+            ctx.violation("moving all thresholds and observations by a common offset / scale changes whether crps_cdf raises", desc, a[0], b[0])
+        return
+    dims, labs = case_labels(c["sizes"])
+    ctx.case(("shift_scale", desc))
+    ctx.count("shift_scale_equivariance")
+    for lb, x, y in zip(labs, impl_triples(a[1], dims, labs), impl_triples(b[1], dims, labs)):
+        for n, u, v in zip(NAMES, x, y):
+            if not same_or_both_nan(scale * u, v, tol=1e-7):
+                ctx.violation("crps_cdf is not equivariant: thresholds and observations moved to base + scale * x must give scale * the score "
+                              f"of the call near zero ({n})", {**desc, "case": dict(zip(dims, lb)), "near_zero": describe(p)}, scale * u, v)
+                return
+
+
+def pick_case(da, sel):
+    """the sub-array of one forecast case, dimensions kept (size 1)"""
+    if da is None:
+        return None
+    k = {d: [v] for d, v in sel.items() if d in da.dims}
+    return contiguous(da.sel(k)) if k else da
+
+
+def alone_vs_batch(ctx, c):
+    """the score of a forecast case does not depend on which other cases share the call, once the threshold grid is the same (the
+    observations of the whole batch are passed as additional thresholds to both calls): C07_nan_own_case_only without a model"""
+    if c["bad"] or not c["sizes"]:
+        return
+    dims, labs = case_labels(c["sizes"])
+    if len(labs) < 2:
+        return
+    lb = ctx.rng.choice(labs)
+    sel = dict(zip(dims, lb))
+    add = list(c["add"] or []) + [float(v) for v in np.asarray(c["obs"].values, dtype=float).ravel() if not np.isnan(v)]
+    cb = dict(c, add=add)
+    c1 = dict(c, add=add, fcst=pick_case(c["fcst"], sel), obs=pick_case(c["obs"], sel), weight=pick_case(c["weight"], sel))
+    a, b = call_crps(cb), call_crps(c1)
+    desc = {**describe(cb), "case": sel}
+    ctx.case(("alone", desc))
+    ctx.count("alone_vs_batch")
+    if a[0] != "ok" or b[0] != "ok":
+        if a[0] != b[0]:
+            ctx.violation("a forecast case scored alone raises / does not raise although the same case scored in a batch does not / does", desc,
+                          f"batch: {a[0]}", f"alone: {b[1] if b[0] == 'err' else 'ok'}")
+        return
+    x, y = impl_triples(a[1], dims, [lb])[0], impl_triples(b[1], dims, [lb])[0]
+    if not all(same_or_both_nan(u, v, tol=1e-10) for u, v in zip(x, y)):
+        ctx.violation("the score of a forecast case depends on which other cases share the call (same threshold grid in both calls)", desc, x, y)
+
+
+INF_KEY = "crps-cdf-infinite-observation"
+
+
+def inf_obs_as_missing(ctx, c):
+    """an infinite observation has no finite CRPS (the documented integral diverges): it must be scored like a missing one -- NaN for its
+    own case, every other case of the call unchanged.  Relation between two public calls (obs = +-inf vs obs = NaN at the same places)."""
+    if c["bad"]:
+        return
+    rng = ctx.rng
+    ov = np.asarray(c["obs"].values, dtype=float)
+    n = ov.size
+    where = set(rng.sample(range(n), rng.randint(1, max(1, n // 2))))
+    vi, vn = ov.copy().ravel(), ov.copy().ravel()
+    for k in where:
+        vi[k] = rng.choice([INF, -INF])
+        vn[k] = NAN
+    oi, on = c["obs"].copy(data=vi.reshape(ov.shape)), c["obs"].copy(data=vn.reshape(ov.shape))
+    dims, labs = case_labels(c["sizes"])
+    for fn in ("crps", "brier"):
+        if fn == "crps":
+            a, b = call_crps(dict(c, obs=oi)), call_crps(dict(c, obs=on))
+            names = NAMES
+        else:
+            kw = dict(threshold_dim=TD, additional_thresholds=c["add"], fcst_fill_method=c["opt"]["fcst_fill_method"])
+            if dims:
+                kw["preserve_dims"] = dims
+            a = core.call_impl(S().crps_cdf_brier_decomposition, c["fcst"], oi, **kw)
+            b = core.call_impl(S().crps_cdf_brier_decomposition, c["fcst"], on, **kw)
+            names = ["total_penalty", "underforecast_penalty", "overforecast_penalty"]
+        desc = {**describe(dict(c, obs=oi)), "fn": "crps_cdf" if fn == "crps" else "crps_cdf_brier_decomposition"}
+        ctx.case(("inf_obs", fn, desc))
+        ctx.count("inf_obs_as_missing:" + fn)
+        if b[0] != "ok":
+            continue
+        if a[0] != "ok":
+            ctx.violation("an infinite observation makes the call raise (a missing observation at the same place does not)", desc, "ok", a[1], finding_key=INF_KEY)
+            continue
+        for n_ in names:
+            x, y = xr.broadcast(a[1][n_], b[1][n_])
+            # (Brier: the infinite observation is an extra threshold of the result; compare on the thresholds of the reference call)
+            if fn == "brier":
+                x = a[1][n_].reindex({TD: b[1][n_][TD].values})
+                y = b[1][n_]
+                x, y = xr.broadcast(x, y)
+            if not np.allclose(np.asarray(x.values, dtype=float), np.asarray(y.values, dtype=float), rtol=1e-10, atol=1e-12, equal_nan=True):
+                ctx.violation("an infinite observation is not scored like a missing one: its own case must be NaN and every other case of the call "
+                              f"unchanged ({n_})", desc, np.asarray(y.values).tolist(), np.asarray(x.values).tolist(), finding_key=INF_KEY)
+                break
+
+
+def probe_far_thresholds(ctx):
+    """thresholds far from zero relative to their spacing (1e6 ... 1e6+4, 101325 +- k/16, 273 + k/64, -2e6 at spacing 2): the exact rational
+    model, the proved specification value, the Brier / trapezoid relation and the equivariance all see the same call moved"""
+    fc = xr.DataArray(np.array([[0.125, 0.25, 0.5, 0.75, 1.0], [0.0, 0.625, 0.375, 0.875, 0.875]]), dims=["a", TD],
+                      coords={"a": [0, 1], TD: [0.0, 1.0, 2.0, 3.0, 4.0]})
+    w = xr.DataArray([0.25, 1.0, 0.5], dims=[TD], coords={TD: [0.5, 2.0, 3.5]})
+    for base, scale in AFFINE:
+        for ovs in ([1.5, 1.5], [2.0, -3.0], [4.0 + 1 / 3, 6.0]):
+            ob = xr.DataArray(ovs, dims=["a"], coords={"a": [0, 1]})
+            for f, im, wt in [("linear", "exact", None), ("linear", "trapz", None), ("step", "exact", w), ("backward", "trapz", w), ("forward", "exact", w)]:
+                p = dict(fcst=fc, obs=ob, weight=wt, add=[2.25], sizes={"a": 2}, wkind="probe", bad=None,
+                         opt=dict(fcst_fill_method=f, threshold_weight_fill_method="forward", integration_method=im, propagate_nans=True))
+                c = affine(p, base, scale)
+                tie_crps(ctx, c)
+                shift_scale(ctx, c)
+                ctx.count("probe_far_thresholds")
+        brier_tie_and_trapz(ctx, c)
+        nan_own_case(ctx, c, "weight")
+        nan_own_case(ctx, c, "fcst")
+
+
+def probe_every_case_has_nan(ctx):
+    """calls in which EVERY forecast CDF has a NaN ordinate (single-case calls, small batches) and threshold weights without a case
+    dimension that have a NaN: with propagate_nans the whole array is NaN when it reaches the fills; the result is NaN per case, no error"""
+    ths = [0.0, 1.0, 2.0, 3.0, 4.0]
+    rows = [[0.125, NAN, 0.625, 0.75, 1.0], [NAN, 0.25, 0.5, 0.75, 1.0], [0.0, 0.25, 0.5, 0.75, NAN], [NAN] * 5]
+    w_nan = xr.DataArray([0.5, NAN, 1.0], dims=[TD], coords={TD: [0.0, 2.0, 4.0]})
+    w_ok = xr.DataArray([0.5, 0.25, 1.0], dims=[TD], coords={TD: [0.0, 2.0, 4.0]})
+    good = [0.0, 0.25, 0.5, 0.75, 1.0]
+    batches = [([rows[0]], None), ([rows[3]], None), (rows[:3], None), (rows, None), ([good, rows[1]], w_nan), ([good], w_nan), ([rows[2]], w_ok)]
+    for lines, w in batches:
+        n = len(lines)
+        if w is w_nan:
+            ctx.count("class:weight_nan_without_case_dim")
+        ob = xr.DataArray([1.5 + k for k in range(n)], dims=["a"], coords={"a": list(range(n))})
+        fc2 = xr.DataArray(np.array(lines, dtype=float), dims=["a", TD], coords={"a": list(range(n)), TD: ths})
+        variants = [(fc2, ob, {"a": n})]
+        if n == 1:      # the same single case without any case dimension
+            variants.append((fc2.isel(a=0, drop=True), ob.isel(a=0, drop=True), {}))
+        for fcv, obv, sizes in variants:
+            for f, im, pr in [("linear", "exact", True), ("step", "trapz", True), ("forward", "exact", False), ("linear", "trapz", False)]:
+                c = dict(fcst=fcv, obs=obv, weight=w, add=None, sizes=sizes, wkind="probe", bad=None,
+                         opt=dict(fcst_fill_method=f, threshold_weight_fill_method="forward", integration_method=im, propagate_nans=pr))
+                tie_crps(ctx, c)
+                ctx.count("probe_every_case_has_nan")
+            brier_tie_and_trapz(ctx, c)
+            alone_vs_batch(ctx, c)
+    # error paths of the Brier decomposition: an ordinate outside [0, 1]; a threshold coordinate that is not increasing
+    fcb = xr.DataArray(np.array([[0.0, 0.5, 1.125], [0.0, 0.5, 1.0]]), dims=["a", TD], coords={"a": [0, 1], TD: [0.0, 1.0, 2.0]})
+    obb = xr.DataArray([0.5, 1.5], dims=["a"], coords={"a": [0, 1]})
+    for fcv, bad in ((fcb, "fcst_bounds"), (fcb.clip(0, 1).assign_coords({TD: [0.0, 2.0, 1.0]}), "nonincreasing")):
+        brier_tie_and_trapz(ctx, dict(fcst=fcv, obs=obb, weight=None, add=None, sizes={"a": 2}, wkind="probe", bad=bad,
+                                      opt=dict(fcst_fill_method="linear", threshold_weight_fill_method="forward", integration_method="exact", propagate_nans=True)))
 
 
 def sweep(ctx, full):
@@ -634,6 +874,8 @@ def replay(ctx, obj):
 def run(ctx):
     corpus(ctx)
     probe_nondyadic_obs(ctx)
+    probe_far_thresholds(ctx)
+    probe_every_case_has_nan(ctx)
     sweep(ctx, full=(ctx.tier == "thorough"))
     n = ctx.n(330, 5000)
     for i in range(n):
@@ -653,12 +895,18 @@ def run(ctx):
             ctx.sample(describe(c))
         if r is not None and comps and ctx.rng.random() < 0.5:
             tie_reduce(ctx, c, r[3], r[1], r[2])
+        if "affine" in c and ctx.rng.random() < 0.5:
+            shift_scale(ctx, c)
         k = ctx.rng.random()
-        if k < 0.25:
+        if k < 0.2:
             partition(ctx, c)
-        elif k < 0.5:
+        elif k < 0.42:
             brier_tie_and_trapz(ctx, c)
-        elif k < 0.7:
+        elif k < 0.58:
             nan_own_case(ctx, c)
-        elif k < 0.78 and not c["bad"]:
+        elif k < 0.65 and not c["bad"]:
             dims_errors(ctx, c)
+        elif k < 0.8:
+            alone_vs_batch(ctx, c)
+        elif k < 0.88:
+            inf_obs_as_missing(ctx, c)
